@@ -141,3 +141,56 @@ func checkC02Negation(c *Ctx) {
 		r.Check(len(problems) == 0, ns.Name(), "complement of "+name+".Build", ns.Body.Pos(), "Build {"+list(buildOps)+"} / negation {"+list(negOps)+"}"+via, "Not("+name+"{..}) does not select the complement of "+name+"{..}: "+strings.Join(problems, "; ")+" [Build {"+list(buildOps)+"}, negation {"+list(negOps)+"}"+via+"]")
 	}
 }
+
+// C02.pk-sources: "the primary key of the model value is an AND-combined unit".  Delete takes the key from
+// two places - the value handed to Delete (Statement.ReflectValue) and, when it is a different value, the
+// model given with Model() - and there are two sibling builders of the DELETE conditions (the hard-delete
+// executor and the soft-delete modifier).  Both must read both sources, the second one from Statement.Model.
+func checkC02PkSources(c *Ctx) {
+	p := c.P
+	r := c.Rule("C02.pk-sources", "SIBLINGS(delete builders): primary-key conditions are taken from Statement.ReflectValue and from Statement.Model", 2)
+	gif := p.FuncDecl(pkgSchema, "GetIdentityFieldValuesMap").Obj
+	stmtT := p.Named(pkgGorm, "Statement")
+	rvF, modelF, pfF := p.Field(stmtT, "ReflectValue"), p.Field(stmtT, "Model"), p.Field(p.Named(pkgSchema, "Schema"), "PrimaryFields")
+	var sites []*FuncSrc
+	if del := p.FuncDecl(pkgCallbacks, "Delete"); del != nil {
+		for _, l := range p.AllLits(del) {
+			if l.Parent == del {
+				sites = append(sites, l)
+			}
+		}
+	}
+	sites = append(sites, p.MethodDecl(pkgGorm, "SoftDeleteDeleteClause", "ModifyStatement"))
+	for _, f := range sites {
+		c.Touch(f)
+		info := f.Pkg.TypesInfo
+		fromValue, fromModel := false, false
+		n := 0
+		for _, call := range callsIn(f) {
+			if fn, _ := typeutil.Callee(info, call).(*types.Func); fn != gif || len(call.Args) != 3 {
+				continue
+			}
+			// only the model's own primary fields (association deletes use foreign fields)
+			if !fieldSel(info, call.Args[2], pfF) {
+				continue
+			}
+			n++
+			src := unparen(call.Args[1])
+			// a single-definition local stands for its definition
+			if id, ok := src.(*ast.Ident); ok {
+				if ds := localDefs(f, id.Name, id.Pos()); len(ds) == 1 && ds[0].rhs != nil {
+					src = unparen(ds[0].rhs)
+				}
+			}
+			if fieldSel(info, src, rvF) {
+				fromValue = true
+			}
+			if ce, ok := src.(*ast.CallExpr); ok && len(ce.Args) == 1 && fieldSel(info, ce.Args[0], modelF) {
+				if fn, _ := typeutil.Callee(info, ce).(*types.Func); fn != nil && fn.FullName() == "reflect.ValueOf" {
+					fromModel = true
+				}
+			}
+		}
+		r.Check(n >= 2 && fromValue && fromModel, f.Name(), "key conditions from the deleted value and from Model()", f.Body.Pos(), "GetIdentityFieldValuesMap over Statement.ReflectValue and over reflect.ValueOf(Statement.Model)", "the delete builder does not take the primary key from both the value handed to Delete and the value given with Model(): db.Model(&T{ID: k}).Where(c).Delete(&T{}) loses `AND id = k` and deletes every row matching c")
+	}
+}
